@@ -183,7 +183,9 @@ def gen_op(d, shard):
     k = d.weighted([(3, "isqrt"), (2, "ifac"), (2, "ifib"), (4, "numeral"), (3, "bitcount"), (3, "trailing"), (2, "gcd"), (2, "b2r")])
     big = d.int(0, 2**d.int(1, 3000))
     if k == "isqrt":
-        return {"f": d.choice(["isqrt", "sqrtrem", "isqrt_small", "isqrt_fast"]), "args": [["mpz" if d.bool() else "int", str(big)]], "kind": "exact", "prec": 53}
+        f = d.choice(["isqrt", "sqrtrem", "isqrt_small", "isqrt_fast"])
+        # isqrt_fast is documented as approximate on the Python backend (off by 1 near exact squares)
+        return {"f": f, "args": [["mpz" if d.bool() else "int", str(big)]], "kind": "exact" if f != "isqrt_fast" else "int2", "prec": 53}
     if k == "ifac":
         return {"f": "ifac", "args": [["int", d.int(0, 1500)]], "kind": "exact", "prec": 53}
     if k == "ifib":
@@ -282,6 +284,8 @@ def check_case(c):
     res.n = len(ops)
     for o, ra, rb in zip(c["ops"], a, b):
         f, kind, p = o["f"], o["kind"], o["prec"]
+        if f == "isqrt_fast":
+            kind = "int2"
         what = "%s%s" % (f, json.dumps(o["args"])[:500])
         if o["prec"] > 100 or any(len(json.dumps(x)) > 40 for x in o["args"]):
             res.nontrivial = True
@@ -305,6 +309,10 @@ def check_case(c):
         sa, sb = _strip(ea), _strip(eb)
         if sa == sb:
             res.metrics["identical"] = res.metrics.get("identical", 0) + 1
+            continue
+        if kind == "int2":
+            if not (sa[0] == sb[0] == "int" and abs(int(sa[1]) - int(sb[1])) <= 2):
+                res.bad("differ:%s" % f, "%s: python backend -> %r, gmpy backend -> %r (documented accuracy: about 1 unit)" % (what, sa, sb))
             continue
         if kind == "exact":
             res.bad("differ:%s" % f, "%s: python backend -> %r, gmpy backend -> %r" % (what, sa, sb))
